@@ -540,6 +540,10 @@ func c16Check(res *c16Ctx, in *polyg.Instance, family string) {
 	if in.Label {
 		shape += "/+node"
 	}
+	if in.NodeScheme != "" && in.NodeScheme != "pos" {
+		shape += "/id-" + in.NodeScheme
+	}
+	res.Put("node_id_schemes", in.NodeScheme)
 	lookup := make(map[orb.Point]int, len(in.Verts))
 	for i, v := range in.Verts {
 		lookup[orb.Point{v.P.Lon(), v.P.Lat()}] = i
@@ -1500,6 +1504,7 @@ func init() {
 			"Concave truths (kind concave: thick-snake outers with corridor holes, further outers in the notch) and placements on the ends of the coordinate range (origin edge, enum-edge) are part of the case list. " +
 			"Every generated input is also annotated as a history of 2-3 relation versions in one call (member ways reversed / split by new way versions between relation versions; signature suffix H<versions>). " +
 			"Further coordinate forms per input: located way nodes without refs (Z), paths embedded in Member.Nodes with the ways absent (M, MZ, MZO); tiny truths (kind tiny: rings 1-12 coordinate steps across at +-179.9 / +-89.9 / mid-latitudes). " +
+			"Ring node ids are drawn per input from five schemes (positive, all negative, mixed sign, around zero without 0, beyond 2^40); way and relation ids stay positive. " +
 			"A signature is (family, #outers, holes per outer, cut classes present, reversal class, +node member, variant); distinct_nontrivial counts distinct signatures.",
 		Assumptions: []string{
 			"'the result is the same' is read up to ring start vertex, order of holes within a polygon and order of polygons; winding, closure and the cyclic vertex sequence are compared exactly (float64 bit patterns)",
@@ -1509,6 +1514,7 @@ func init() {
 			"members with empty or other roles are ignored by the library and are outside the property: not generated for ways; 20% of the generated relations carry one node member (label/admin_centre), reported with '+node' in the key",
 			"orientation-carrying variants use directions derived from the truth (independent producer); the library's own annotation is checked separately against the same directions",
 			"annotating marks every way member with its true direction whatever Orientation values the members carried before (re-annotation, stale or partial annotations): asserted for annotate.Relations only; Convert is given correct annotations or none, because it documents that it trusts them",
+			"node id 0 is never used for a ring node (ref 0 without location is the documented no-reference placeholder) and the node member keeps a positive id; negative way / relation ids are not generated (FeatureID packing, C10)",
 			"member ways with unlocated nodes (fewer points than nodes) and member ways without nodes leave the property's domain (it requires located rings cut into pieces): 25% of the generated inputs are additionally run in such a degraded form through annotate.Relations and Convert; only panics are reported, results are counted, not judged",
 		},
 		Cases: func(tier string, seed uint64) []fw.Case {
